@@ -124,7 +124,7 @@ CHECKS = {
         "assumptions": ["operation granularity: concurrency inside an operation is C16's business", "no neighbor target is literally \"host\""],
     },
     "C12": {
-        "suites": chain_suites(12),
+        "suites": chain_suites(12, extra=[{"suite": "forks", "n_quick": 160, "n_thorough": 4000, "shards": 8, "shards_thorough": 16}]),
         "monitor_props": ["C12"],
         "mismatch_kinds": ["validate", "update", "regsync"],
         "rule": CHAIN_RULE + " For C12 every block hash observed at a height is re-observed after every later operation (production, registry refresh, candidate verification that is later rejected, queries) as long as the chain below it was not replaced by a sync round; registry refreshes mark any subset of addresses invalid so that blocks carry 0, 1, 2 or more pending removals.",
@@ -132,7 +132,7 @@ CHECKS = {
         "assumptions": ["'identical content and hash' is definitional for immutable model values; the theorem content is which heights may change and that the chain is hash-linked in every reachable state"],
     },
     "C02": {
-        "suites": chain_suites(2),
+        "suites": chain_suites(2, extra=[{"suite": "forks", "n_quick": 160, "n_thorough": 4000, "shards": 8, "shards_thorough": 16}]),
         "monitor_props": ["C02"],
         "mismatch_kinds": ["admit", "validate", "update"],
         "rule": CHAIN_RULE + " For C02 the generator submits conflicting spends in every position: the same output twice in one transaction, in two pooled transactions, in the last block and the pool, in adjacent and distant blocks, across a re-sync, and resubmissions; the monitor recomputes the consumed-reference multiset of every served chain.",
